@@ -44,7 +44,8 @@ FUNCTIONS = [
 BOUNDS = ("histories of 3 (quick) / 4 (thorough) calls; 10 pool expressions (<= 9 nodes) x 4 maps x 8 call kinds, the first call of a shard is one of the "
           "candidate failing calls, the others are choices from a per-shard sub-pool of 5-7 calls; sigma a solver variable in [-20, 30] "
           "(concrete shards: sigma in {2, 3, 4, 7, 12} by choice, histories of 3 (4) free calls from larger sub-pools)")
-OUTSIDE = ("longer histories; other walkers (Dnf/Nnf, LinearChecker, UsertypeFluentsWalker, NamesExtractor); a Simplifier bound to a problem; "
+OUTSIDE = ("longer histories; quantifiers with two or more variables (Simplifier.walk_exists returns them in an address-dependent order: a nondeterministic "
+           "outcome cannot be replayed; written up in scratch/fixes/C14-simplify-exists-variable-order.md); other walkers (Dnf/Nnf, LinearChecker, UsertypeFluentsWalker, NamesExtractor); a Simplifier bound to a problem; "
            "failures raised by user code inside interpreted functions; real-valued sigma")
 ASSUMPTIONS = ["hash-consing tables are association lists (S2 exact): the constant sigma shares a node with another constant exactly when the solver allows equality",
                "comparisons of a symbolic int with +-inf in the type checker are answered exactly (vf/infshim.py)",
